@@ -70,3 +70,114 @@ for _f in ('fprintGVector', 'fprintHVector', 'fprintVertVector'):
     CONTRACT[WL + _f] = dict(self=mk_machine, params={'vector': 'opaque'}, raises=[], modifies=[], returns='opaque', ensures=[], trusted=True, no_inv=True)
 CONTRACT[WL + 'writeLog'] = dict(self=mk_machine, params={'logfile': 'opaque', 'output': 'opaque'}, raises=[], modifies=[], ensures=[], trusted=True, no_inv=True)
 CONTRACT[WL + 'mklog'] = dict(self=mk_machine, params={'logfile': 'opaque', 'initial': 'opaque'}, raises=[], modifies=[], returns='opaque', ensures=[], trusted=True, no_inv=True)
+
+
+# ----------------------------------------------------------------------------- C18.c: the run loop of run_normal_WL
+def mk_machine_run(it, case):
+    """a NORMAL-mode machine whose sequence is a Sequence object under its invariant and whose frozen set is any set of positions"""
+    from .common import mk_sequence
+    o = mk_machine(it, case)
+    o.fields['seq'] = mk_sequence(prefix='self.seq')(it, case)
+    o.fields['frozen'] = it.fresh_typed('frozen', 'set[int]')
+    return o
+
+
+mk_machine_run.inv = mk_machine.inv
+
+CONTRACT[WL + 'sanity_check'] = dict(self=mk_machine, raises=[], modifies=[], ensures=['result is None'])
+
+
+def _exp(x):
+    from pyvc import ops
+    return ops.mk(ops._uf(ops.EXP, ops.z3real(x)), 'real')
+
+
+def _ln(x):
+    from pyvc import ops
+    return ops.mk(ops._uf(ops.LN, ops.z3real(x)), 'real')
+
+
+SPEC.update(dict(exp=_exp, ln=_ln))
+
+
+def prepare(v):
+    from pyvc import models
+    # the bin of a kappa value exactly as the code computes it: numpy.argmin(abs(centres - kappa))
+    v.interp.spec_env['bin_of'] = lambda cts, k: models.m_np_argmin(v.interp, None, models.m_abs(v.interp, None, cts - k))
+
+
+_B = 'bin_of(bincts, knew)'                                       # bin of the proposal of this iteration
+_INR = 'And(self.relevant_min <= %s, %s <= self.relevant_max)'     # inside the requested range
+_INB = _INR % (_B, _B)
+_MOVED = 'draw(1) < acceptProb'                                   # draw(0) selects the move, draw(1) is the acceptance draw
+_CHK = '(pre("nstep") + 1) % self.nflatchk == 0'                  # a scheduled flat check closes this iteration
+_HUPD = '(pre("H")[%%s] + ite(And(%s, %%s == idx_old), 1, 0))' % _INB
+_ALLH = lambda body: 'forall(lambda i: %s, 0, self.nbins_actual)' % body
+
+CONTRACT[WL + 'run_normal_WL'] = dict(
+    self=mk_machine_run, feas_cone=True,
+    requires=['seq_inv(self.seq)', 'dmax_inv(self.seq)', 'forall(lambda j: is_aa(self.seq.seq[j]), 0, self.seq.len)', 'self.seq.len >= 4',
+              'self.nflatchk >= 1', 'self.dotdotfreq >= 1'],
+    raises=[], may_raise=[('SequenceException', 'True'), ('ValueError', 'True')], modifies=[],
+    call_lemmas={'Sequence.kappa': lambda it, fr, lineno: _rebuilt_hints(it, fr)},
+    # the run stops only when f has reached the convergence threshold; the returned array pairs the bin centres with g
+    ensures=['local("f") <= self.convergence',
+             'forall(lambda i: local("bincts")[i] == (toreal(i) + Fraction(1, 2)) / toreal(self.nbins_actual), 0, self.nbins_actual)'])
+def _rebuilt_hints(it, fr):
+    """the accepted proposal is re-built with Sequence(nseq.seq, nseq.dmax, nseq.chargePattern): the constructor upper-cases its argument, so
+    that kappa and delta-max of the new object are those of the proposal is the C05 substitution theorem (equal charge classes position by position)"""
+    from pyvc.values import Obj
+    if not (isinstance(fr.env.get('nseq'), Obj) and isinstance(fr.env.get('oseq'), Obj)):
+        return []
+    g = 'seq_eq(oseq.seq, upper_seq(nseq.seq))'
+    return ['when(%s, C05_kappa_substitution(oseq.seq, nseq.seq, nseq.len))' % g, 'when(%s, C05_dmax_substitution(oseq.seq, nseq.seq, nseq.len))' % g]
+
+
+LOOPS[WL + 'run_normal_WL'] = {0: dict(
+    types={'g': 'list[real]', 'H': 'list[int]', 'f': 'real', 'oseq': 'seqobj', 'idx_old': 'int', 'kold': 'real', 'nstep': 'int', 'niter': 'int',
+           'flatcount': 'int', 'seqcount': 'int', 'reject': 'int', 'idx_new': 'int', 'knew': 'real', 'acceptProb': 'real', 'Hlocal': 'list[int]',
+           'oseq.seqDeltaMax': 'opaque', 'oseq.dmax': 'real'},
+    invariant=['length(g) == self.nbins_actual', 'length(H) == self.nbins_actual', 'f > 0', 'And(0 <= idx_old, idx_old < self.nbins_actual)',
+               'seq_inv(oseq)', 'dmax_inv(oseq)', 'oseq.len == self.seq.len', 'And(0 <= nstep, nstep < self.nflatchk)',
+               'forall(lambda i: H[i] >= 0, 0, self.nbins_actual)',
+               # the state the chain sits in always has the kappa and the bin the bookkeeping says
+               'kold == kappa_seq(oseq.seq, oseq.len)', 'idx_old == bin_of(bincts, kold)'],
+    transition=[
+        # acceptance probability of the WL rule; 0 outside the requested range
+        'acceptProb == ite(%s, lambda: minv(1, exp(pre("g")[pre("idx_old")] - pre("g")[%s])), lambda: 0)' % (_INB, _B),
+        # the chain moves exactly when the acceptance draw falls below it, and then sits in the proposal's bin, which is inside the range
+        'implies(%s, And(idx_old == %s, kold == knew, %s))' % (_MOVED, _B, _INR % ('idx_old', 'idx_old')),
+        'implies(Not(%s), And(idx_old == pre("idx_old"), kold == pre("kold"), oseq is pre("oseq")))' % _MOVED,
+        # counted step (proposal inside the range): ln f is added to g of the occupied bin, nothing else changes; otherwise g is untouched
+        'ite(%s, lambda: And(g[idx_old] == pre("g")[idx_old] + ln(pre("f")), %s), lambda: %s)'
+        % (_INB, _ALLH('implies(i != idx_old, g[i] == pre("g")[i])'), _ALLH('g[i] == pre("g")[i]')),
+        # between scheduled checks: 1 is added to the histogram of the occupied bin on a counted step; f and the iteration stay
+        'implies(Not(%s), And(%s, f == pre("f"), niter == pre("niter"), nstep == pre("nstep") + 1))' % (_CHK, _ALLH('H[i] == ' + _HUPD % ('i', 'i'))),
+        # at a scheduled check the range of the updated histogram is examined ...
+        'implies(%s, And(nstep == 0, length(Hlocal) == self.nbins_target, forall(lambda i: Hlocal[i] == %s, 0, self.nbins_target)))'
+        % (_CHK, _HUPD % ('self.relevant_min + i', 'self.relevant_min + i')),
+        # ... f becomes its square root and the histogram is reset exactly when every bin of the range holds the criterion fraction of the mean
+        'implies(And(%s, isum(lambda j: Hlocal[j], 0, self.nbins_target) > 0), ite(all_flat(Hlocal, self.nbins_target, self.flatcrit), '
+        'lambda: And(f == sqrt(pre("f")), niter == pre("niter") + 1, %s), lambda: And(f == pre("f"), niter == pre("niter"), %s)))'
+        % (_CHK, _ALLH('H[i] == 0'), _ALLH('H[i] == ' + _HUPD % ('i', 'i'))),
+    ],
+)}
+
+def _flatcheck_result(it, env):
+    return (it.fresh_typed('flatcheck.H', 'list[int]'), it.fresh('flatcheck.f', 'real'), it.fresh('flatcheck.niter', 'int'), it.fresh('flatcheck.nstep', 'int'))
+
+
+CONTRACT[WL + '__run_flatcheck']['returns'] = _flatcheck_result
+
+
+# the two loops that write DOS.txt / DOS_local.txt after the run: no state the contract talks about changes (text output is opaque)
+LOOPS[WL + 'run_normal_WL'][1] = dict(index='i', invariant=['length(g) == self.nbins_actual'])
+LOOPS[WL + 'run_normal_WL'][2] = dict(index='i', invariant=['length(g) == self.nbins_actual'])
+
+# the all-zero local histogram: numpy divides by a zero mean, every ratio is NaN and no comparison with the criterion holds -> "not flat".
+# NaN semantics are outside the model, so this case of the flat check is an ASSUMED contract.
+CONTRACT[WL + '__run_flatcheck#allzero'] = dict(
+    self=mk_machine, params=CONTRACT[WL + '__run_flatcheck']['params'],
+    requires=['length(H) == self.nbins_actual', 'isum(lambda j: Hlocal[j], 0, length(Hlocal)) == 0'], raises=[], modifies=[], trusted=True, returns=_flatcheck_result,
+    ensures=['result[3] == 0', 'result[1] == f', 'result[2] == niter', 'seq_eq(result[0], H)'])
+CONTRACT[WL + '__run_flatcheck']['dispatch'] = [('isum(lambda j: Hlocal[j], 0, length(Hlocal)) == 0', WL + '__run_flatcheck#allzero')]
